@@ -437,6 +437,65 @@ func checkC12(e *core.Env) {
 			e.Sample(map[string]any{"carrier": carrier, "base_path": base, "registered": rs.all})
 		}
 	})
+	// services registered on a server (or channel) that is already in use, after their names were asked for: a
+	// name that was unknown a moment ago resolves once its service is registered
+	e.Cases("late-registration", e.N(40, 400), func(i int, r *rand.Rand) {
+		rs := genRegSet(r)
+		if len(rs.descs) < 2 {
+			return
+		}
+		early, late := rs.descs[:1], rs.descs[1:]
+		var cc grpc.ClientConnInterface
+		var reg grpchan.ServiceRegistry
+		carrier, isHTTP := "inproc", false
+		if i%2 == 0 {
+			ch := &inprocgrpc.Channel{}
+			cc, reg = ch, ch
+		} else {
+			base := genBasePath(r)
+			s := httpgrpc.NewServer(httpgrpc.WithBasePath(base))
+			c := httpCarrier("http", nil, s, "/", false, false)
+			defer c.Close()
+			u := *c.URL
+			u.Path = base
+			cc, reg = &httpgrpc.Channel{Transport: c.Transport, BaseURL: &u}, s
+			carrier, isHTTP = "http-server", true
+		}
+		for _, d := range early {
+			reg.RegisterService(d, &svcObj{d.ServiceName})
+		}
+		// ask for the late services' methods while they are unknown (whatever comes back: they are not there yet)
+		var names []string
+		for _, d := range late {
+			for _, m := range d.Methods {
+				names = append(names, "/"+d.ServiceName+"/"+m.MethodName)
+			}
+			for _, m := range d.Streams {
+				names = append(names, "/"+d.ServiceName+"/"+m.StreamName)
+			}
+		}
+		for _, n := range names {
+			callName(cc, n, rs.stream[n])
+			callName(cc, n, !rs.stream[n])
+		}
+		if got := rs.cs.take(); len(got) != 0 {
+			e.Violate(carrier+"/late-registration/ran-before-registered", fmt.Sprintf("handlers ran for services that were not registered yet: %v", got), nil)
+			return
+		}
+		for _, d := range late {
+			reg.RegisterService(d, &svcObj{d.ServiceName})
+		}
+		for k := 0; k < 12; k++ {
+			name := genName(r, rs, isHTTP)
+			asStream := r.Intn(2) == 0
+			if k < len(names) {
+				name, asStream = names[k], rs.stream[names[k]]
+			}
+			err, pan := callName(cc, name, asStream)
+			judgeName(e, carrier, isHTTP, rs, name, asStream, err, pan, "services registered after their names had been asked for")
+			e.Eval(fmt.Sprintf("late-registration|%s|%s|%v", carrier, nameClass(name, rs), asStream), true)
+		}
+	})
 }
 
 func nameClass(name string, rs *regSet) string {
